@@ -138,6 +138,7 @@ type S struct {
 	// the monitor had flagged them as blocked.
 	SelfWakes  int
 	lastSwitch uint64
+	pauseReq   bool
 	monBusy    atomic.Bool
 
 	// Seen, when non-nil, records which yield sites were reached (reach
@@ -280,6 +281,13 @@ func (s *S) fromList(kind int) (int, bool) {
 
 // decide returns the task that should run after this yield.
 func (s *S) decide(site uint32) int {
+	if s.pauseReq {
+		s.pauseReq = false
+		if !s.UseList {
+			s.lastSwitch = s.Step
+			return s.pickOther(s.cur)
+		}
+	}
 	if s.UseList {
 		if s.replayIx < len(s.Replay) && s.Replay[s.replayIx].Step <= s.Step {
 			s.ready()
@@ -384,6 +392,32 @@ func (s *S) Hook(site uint32) {
 	if next != s.cur {
 		s.InOpSw++
 		s.switchTo(next, site, false)
+	}
+}
+
+// SitePause is the pseudo site of a time.Sleep or runtime.Gosched of the
+// library.
+const SitePause = 0xfffffffe
+
+// Pause is called instead of time.Sleep(d) / runtime.Gosched() (d = 0) by the
+// instrumented library: the caller offers the token to another runnable task,
+// whatever the policy (a recorded, replayable decision). If nobody else can
+// run, a sleeping caller waits a little on the real clock (it may be waiting
+// for a timer or for a goroutine that is not under the scheduler yet).
+func (s *S) Pause(d int64) {
+	if !s.active {
+		if d > 0 {
+			time.Sleep(time.Duration(d))
+		} else {
+			runtime.Gosched()
+		}
+		return
+	}
+	s.pauseReq = true
+	before := len(s.Switches)
+	s.Hook(SitePause)
+	if len(s.Switches) == before && d > 0 {
+		time.Sleep(min(time.Duration(d), 200*time.Microsecond))
 	}
 }
 
